@@ -44,6 +44,10 @@ CLAIMED = {
     text="specs/ArrayOps.tla carries the allocator instance of every array and prescribes it after every operation as a function of the traits (select_on_container_copy_construction on copy construction, replacement on copy/move assignment and swap exactly when the propagate trait is true, the supplied instance for allocator-extended constructors, storage transfer on move only between equal allocators); for each of the 16 combinations of POCCA/POCMA/POCS/is_always_equal the replayer is instantiated with a stateful ledger allocator (instances 1~2 equal, 3 unequal), every history is executed, get_allocator() of every array is compared with the specification, and every event is validated by Lifecycle.tla: blocks are released through an allocator equal to their producer and each array's block was made by an allocator equal to its get_allocator().",
     note="bounded: D=1, extents 0..1 (0..2 thorough), histories of <= 3 (4) operations over 2 arrays; swap of unequal non-propagating allocators is excluded as undefined; std::pmr is represented by the all-false trait configuration of the ledger allocator (same code path), not by a separate memory_resource run.",
     ref="DESIGN.md section 5 C10", tech="TLA+ specification of allocator propagation replayed in 16 trait configurations + TLA+ trace monitor (Lifecycle.tla) on recorded allocator events"),
+ "C05": dict(
+    text="specs/ViewAssign.tla extends the view state machine with one assignment-like operation on the view reached by every program (depth <= 2): from an array, a const view, views with rotated / inner-transposed / padded memory layouts (lvalue and rvalue), another element type, (nested) std::vector ranges, initializer lists, fill(value_type), std::fill on elements(), elements() assignment, swap with a view of different and of identical layout, and moving from the view; it prescribes the whole store afterwards (Exact: cell of position k holds source value k; Frame: every other cell unchanged). The destination root is an array_ref into a guarded buffer; after the real operation the complete buffer, the guards, the source and the second view's frame are compared with the prescription.",
+    note="bounded: roots D<=3, extents 0..3, destination programs of <= 2 operations (broadcast excluded: it aliases cells); D=0 destinations are not covered; sources always have the destination's extents (mismatches belong to C20).",
+    ref="DESIGN.md section 5 C05"),
 }
 
 props = [json.loads(l) for l in open(os.path.join(V, "properties.jsonl"))]
